@@ -504,30 +504,36 @@ def validate_traces(ctx, batches, label):
             for _, evs in chunk:
                 for e in evs:
                     fh.write(json.dumps(e) + "\n")
-        r = ctx.tlc("Trace_Linkage", "Trace_Linkage.cfg", workers=1, env={"TRACE": f}, timeout=1200, collect="REJECT ")
+        r = ctx.tlc("Trace_Linkage", cfg_path(ctx, "Trace_Linkage.cfg"), workers=1, env={"TRACE": f}, timeout=1200, collect="REJECT ")
         os.unlink(f)
         return r
-    nev = ndecl = 0
+    nev = ndecl = nrej = 0
     for ci in range(0, len(batches), 400):
         chunk = batches[ci:ci + 400]
-        r = tlc_on(chunk, "%s%d" % (label, ci))
-        if r.rc == 0:
-            nev += sum(len(e) for _, e in chunk)
-            ndecl += sum(1 for _, evs in chunk for e in evs if e["e"] == "decl")
-            ctx.validated(len(chunk))
-            continue
-        if not r.rejected:
-            raise vlib.MachineryError("Trace_Linkage failed: %s" % r.out[-2000:])
-        # find the first rejected execution
-        for name, evs in chunk:
-            r1 = tlc_on([(name, evs)], "one")
-            if r1.rc != 0:
-                rej = r1.vcases[0] if r1.vcases else r1.out[-500:]
-                ctx.violation("linkage:trace:" + name, "H6 trace of a real compilation is not a behaviour of the decl.c model: %s" % rej[:600],
-                              {"execution": name, "rejected_at": rej, "events": evs[:400]})
+        while chunk and nrej < 5:
+            r = tlc_on(chunk, "%s%d" % (label, ci))
+            if r.rc == 0:
+                nev += sum(len(e) for _, e in chunk)
+                ndecl += sum(1 for _, evs in chunk for e in evs if e["e"] == "decl")
+                ctx.validated(len(chunk))
                 break
-        else:
-            raise vlib.MachineryError("trace chunk rejected but every execution accepted alone")
+            if not r.rejected or not r.vcases:
+                raise vlib.MachineryError("Trace_Linkage failed: %s" % r.out[-2000:])
+            # the REJECT line carries the number of the first event that is not a step of the model
+            rej = json.loads(r.vcases[0])
+            upto, hit = 0, None
+            for k, (name, evs) in enumerate(chunk):
+                upto += len(evs)
+                if rej["line"] <= upto:
+                    hit = k
+                    break
+            if hit is None:
+                raise vlib.MachineryError("cannot locate rejected event %r" % (rej,))
+            name, evs = chunk[hit]
+            nrej += 1
+            ctx.violation("linkage:trace:" + name, "H6 trace of a real compilation is not a behaviour of the decl.c model; first rejected event: %s" % json.dumps(rej["event"])[:500],
+                          {"execution": name, "rejected_event": rej["event"], "event_index_in_execution": rej["line"] - (upto - len(evs)), "events": evs[:300]})
+            chunk = chunk[:hit] + chunk[hit + 1:]
     return nev, ndecl
 
 
@@ -574,6 +580,25 @@ EXPECTED_RULES = {"6.7.1p3-block-thread-local", "6.7.1p7-block-function-storage-
                   "6.7p3-no-linkage-redeclared", "6.7p4-different-kind", "6.2.7p2", "6.7.1p3-thread-local-mismatch", "6.9p3-internal-redefined",
                   "6.9p3-internal-used-undefined", "6.2.2p7", "6.9p5", "6.7.4p7"}
 EXPECTED_DEVS = {"ExternInheritsNoLinkage", "ThreadNoTentative", "ThreadMismatchNotDiagnosed", "InlineLateExternal", "NoUsedInternalUndefDiag"}
+
+
+def cfg_path(ctx, cfg):
+    """Committed cfg, or (C09_DEVS=dev1,dev2|none set) a scratch copy with DevsOn replaced: used to show that after a
+    fix: commit the corresponding deviation can be switched off and the check then demands the repaired behaviour."""
+    devs = os.environ.get("C09_DEVS")
+    if devs is None:
+        return cfg
+    want = [d for d in devs.split(",") if d and d != "none"]
+    if set(want) - EXPECTED_DEVS:
+        raise vlib.MachineryError("C09_DEVS: unknown deviation in %r" % devs)
+    txt = open(os.path.join(vlib.SPEC, cfg)).read()
+    txt, n = re.subn(r"(?m)^  DevsOn = .*$", "  DevsOn = {%s}" % ", ".join('"%s"' % d for d in want), txt)
+    if n != 1:
+        raise vlib.MachineryError("no DevsOn line in %s" % cfg)
+    out = ctx.path(cfg)
+    with open(out, "w") as f:
+        f.write(txt)
+    return out
 
 
 def stream(ctx, objdir, cfg, label, stats, simulate=None, depth=None, audit_every=1, workers=8, keep_units=0, timeout=3000):
@@ -631,7 +656,7 @@ def stream(ctx, objdir, cfg, label, stats, simulate=None, depth=None, audit_ever
             q.put(list(buf))
             buf.clear()
     try:
-        r = ctx.tlc("Linkage", cfg, workers=workers, timeout=timeout, simulate=simulate, depth=depth, on_line=on_line, heap="3g")
+        r = ctx.tlc("Linkage", cfg_path(ctx, cfg), workers=workers, timeout=timeout, simulate=simulate, depth=depth, on_line=on_line, heap="3g")
     finally:
         if buf:
             q.put(list(buf))
@@ -664,7 +689,8 @@ def run(ctx):
     # C. random multi-identifier units
     r3, units3 = stream(ctx, objdir, "MC_Linkage_sim.cfg", "s", stats, simulate=1 if q else 24, depth=12, keep_units=100 if q else 400, workers=4 if q else 8)   # num is per worker; TLC checks (and so emits) every generated successor
     # vacuity guard: every rule of the specification and every named deviation occurred
-    missing = (EXPECTED_RULES - stats["rules"]) | (EXPECTED_DEVS - stats["devs"])
+    devs_on = EXPECTED_DEVS if os.environ.get("C09_DEVS") is None else set(os.environ["C09_DEVS"].split(",")) & EXPECTED_DEVS
+    missing = (EXPECTED_RULES - stats["rules"]) | (devs_on - stats["devs"])
     ctx.cov["classes"] = stats["classes"]
     ctx.cov["rules_exercised"] = sorted(stats["rules"])
     ctx.cov["deviations_exercised"] = sorted(stats["devs"])
@@ -673,3 +699,33 @@ def run(ctx):
     # D. flow B
     flow_b(ctx, units + units3)
     ctx.cov["exhaustive"] = True
+
+
+def replay(ctx, path):
+    """./check C09 --replay <file>: re-run the stored unit, print the specification's expectation and the observation."""
+    rec = json.load(open(path))
+    case = rec["case"]
+    print("key      :", rec["key"])
+    print("history  :", case.get("history", case.get("execution")))
+    if "source" not in case:
+        print("recorded trace rejection:", json.dumps(case.get("rejected_event")))
+        return 1
+    print("unit     :\n" + case["source"])
+    objdir = private_build(ctx, "plain")
+    rc, out, err = vlib.cproc(objdir, case["source"], TARGET)
+    print("exit     :", rc, err.strip())
+    print("IL       :\n" + out)
+    print("expected (Resolve)            :", json.dumps(case["spec"]))
+    print("expected (model + deviations) :", json.dumps(case["model_with_deviations"]), "fired:", case["fired"])
+    try:
+        obs = observe(out, None) if rc == 0 else None
+        print("observed :", json.dumps(obs))
+    except (ilparse.ILSyntaxError, Malformed) as ex:
+        print("observed : IL not as expected:", ex)
+        obs = None
+    spec = case["spec"]
+    if spec["cls"] == "ub":
+        return 0
+    if spec["cls"] == "error":
+        return 0 if rc == 1 else 1
+    return 0 if rc == 0 and obs is not None and compare(spec, obs) is None else 1
